@@ -301,7 +301,7 @@ def _x_runner(tier: str, seed: int, workers: int):
     from xh import c20_x
     from xh.runner import run_obligations
 
-    return run_obligations("xh.c20_x", c20_x.QUICK, 60 if tier == "quick" else 200, workers=workers, signatures=c20_x.SIGNATURES)
+    return run_obligations("xh.c20_x", c20_x.QUICK, 120 if tier == "quick" else 300, workers=workers, signatures=c20_x.SIGNATURES)
 
 
 def replay_obligation(payload):
